@@ -6,6 +6,7 @@
 (*   [ev |-> "step", case |-> n, op |-> "new", opts]                       *)
 (*   [ev |-> "step", case |-> n, op |-> "conv", ast, opts, api, co,        *)
 (*      ret |-> "ok"|"err"|"panic", saveret |-> "ok"|"err"|"none",         *)
+(*      (api = "missing": ConvertFile of a path that does not exist)       *)
 (*      pk |-> package facts, body |-> observed Word body,                 *)
 (*      ref |-> the same projection of the reference CommonMark renderer's *)
 (*              output for the same Markdown text and extensions]          *)
@@ -41,10 +42,11 @@ TotWits(e, c) ==
 
 \* [ws |-> witnesses, amb |-> the reference renderer reads the Markdown differently from the AST]
 ConvJudge(e, c) ==
-  LET tot == {[kind |-> <<"total">> \o v, ks |-> {"fid-case"}, case |-> c] : v \in ViolTotal(e.ret, e.saveret, e.pk)}
+  LET tot == {[kind |-> <<"total">> \o v, ks |-> {"fid-case"}, case |-> c] :
+                v \in IF e.api = "missing" THEN ViolMissing(e.ret) ELSE ViolTotal(e.ret, e.saveret, e.pk)}
       \* (the reference renderer knows no "table support off": it shows a parsed table as a table)
       ambiguous == JudgeFid(e.ast, [cur.opts EXCEPT !.tables = TRUE], e.ref) # {}
-      fid == IF e.ret # "ok" \/ e.saveret # "ok" \/ ambiguous THEN {}
+      fid == IF e.api = "missing" \/ e.ret # "ok" \/ e.saveret # "ok" \/ ambiguous THEN {}
              ELSE {[kind |-> <<"fid", w.fld>>, ks |-> w.ks, case |-> c] : w \in JudgeFid(e.ast, cur.opts, e.body)}
       mach == IF e.opts # cur.opts THEN {[kind |-> <<"MACH", "opts">>, ks |-> {}, case |-> c]} ELSE {}
   IN [ws |-> tot \cup fid \cup mach, amb |-> ambiguous]
